@@ -119,7 +119,7 @@ def closedAnswer (l : Local) : Op → Out → Prop
   | .write _, o => o = .err .closedConn
   | .keyUpdate _, o => o = .err .closedConn
   | .heartbeat _ _, o => o = .err .closedConn
-  | .requestClientAuth, o => o = .err .valueError
+  | .requestClientAuth _, o => o = .err .valueError
   | .close, o => o = .done
   | _, _ => True
 
@@ -133,7 +133,7 @@ theorem runLocal_closed (op : Op) (l : Local) (hc : l.me.closed = true) :
   | write d => simp [runLocal, write, hc, liftU, closedAnswer]
   | read mx mn => simp [runLocal, read_closed mx mn l hc, hc, closedAnswer]
   | keyUpdate r => simp [runLocal, sendKeyUpdate, hc, liftU, closedAnswer]
-  | requestClientAuth => simp [runLocal, requestClientAuth, hc, liftU, closedAnswer]
+  | requestClientAuth sa => simp [runLocal, requestClientAuth, hc, liftU, closedAnswer]
   | heartbeat p n => simp [runLocal, heartbeat, hc, liftU, closedAnswer]
   | close => simp [runLocal, close, hc, liftU, closedAnswer]
   | makefile => simp [runLocal, makefile, hc, closedAnswer]
